@@ -27,7 +27,7 @@ MANIFEST = dict(
           "This is the right level because the property quantifies over all matrices, including every zero pattern, which path enumeration over symbolic entries covers completely."),
     note=("Assumes real arithmetic for floats (A1) and the exact contract of null() on admitted inputs (A5; null's tolerance contract is proved with symbolic eps in the same check). "
           "Shapes are bounded to those the property names. A labelled bounded stand-in (all matrices over {-2..2}) cross-checks the engine against CPython and is not counted as proved."),
-    technique="contract-based deductive verification: symbolic execution of the real Python functions on z3 reals, per-path validity queries (z3, cvc5 fallback)",
+    technique='contract-based deductive verification of solve() per matrix shape (symbolic execution on z3 reals, rank by minors; z3 / cvc5) + labelled bounded exhaustive small-integer matrices and float-residue samples against exact elimination',
     design_ref="DESIGN.md section 9 (C16), section 2",
 )
 ASSUMES = ["A1", "A2", "A5", "A6"]
